@@ -88,7 +88,8 @@ def gen_step(rng: Rng, cell, vname, now_s, at_us, big):
             'thr': thr, 'thr_e': rng.choice([0, 1, 2, 60, 3600]),
             'via': rng.choice(['global', 'additional']), 'faults': [],
             'gthr': rng.choice([60, 0, 1, 10 ** 6]), 'gthr_e': rng.choice([60, 0, 1, 10 ** 6]),
-            'nest': rng.choice(NESTS)}
+            'nest': rng.choice(NESTS), 'dec': rng.chance(1, 4),
+            'spelling': rng.choice(['lower', 'lower', 'upper'])}
     if kind in ('ce', 'cev'):
         # constraint relative to clock and epoch threshold instead
         d = ds if ds != 'far' else rng.choice([-far, far])
@@ -199,14 +200,18 @@ def gen_plan(run_seed, idx, tier):
 
 def build_lock(step):
     k = step['kind']
-    if k == 'cts':
-        return T.Script.from_src('push x%s check_timestamp' % step['enc'])
-    if k == 'ctsv':
-        return T.Script.from_src('push x%s check_timestamp_verify' % step['enc'])
-    if k == 'ce':
-        return T.Script.from_src('push x%s check_epoch' % step['enc'])
-    if k == 'cev':
-        return T.Script.from_src('push x%s check_epoch_verify' % step['enc'])
+    # the constraint operand in hex (exactly these bytes) or, one time in four, as a
+    # decimal literal (the compiler then chooses the encoding)
+    arg = 'x%s' % step['enc'] if 'enc' in step else ''
+    if step.get('dec') and 'enc' in step:
+        arg = 'd%d' % step['c']
+    opn = {'cts': 'check_timestamp', 'ctsv': 'check_timestamp_verify', 'ce': 'check_epoch',
+           'cev': 'check_epoch_verify'}.get(k)
+    if opn:
+        src = 'push %s %s' % (arg, opn)
+        if step.get('spelling') == 'upper':
+            src = 'OP_PUSH %s OP_%s' % (arg, opn.upper())
+        return T.Script.from_src(src)
     v = k.endswith('v')
     if k.startswith('after'):
         return T.make_timestamp_after_lock(step['c'], v)
